@@ -40,11 +40,12 @@ class LossMix(Mix):
         log = w.log
         for ep, name, sock in (('c0', 'client', w.objs['client']), ('s0', 'server', w.objs['server'])):
             loss = next((i for i, ev in enumerate(log) if ev[0] in ('eof', 'rst') and ev[1] == ep), None)
-            closed = next((i for i, ev in enumerate(log) if ev[0] == 'close' and ev[1] == ep), None)
+            # the application's own close() counts from the moment it was called, whether or not it ever gets to the transport
+            closed = next((i for i, ev in enumerate(log) if (ev[0] == 'close' and ev[1] == ep) or (ev[0] == 'close-called' and ev[1] == name)), None)
             if loss is None and closed is None:
                 continue
             at = min(x for x in (loss, closed) if x is not None)
-            cause = log[at][0]
+            cause = 'close' if log[at][0] == 'close-called' else log[at][0]
             tag = '%s/%s' % (name, cause)
             # 1. requester-side handles
             for it in self.inters:
@@ -136,6 +137,11 @@ def mixes():
     M['slow handler rr s + channel c'] = [dict(kind='rr', init='s', tag='A', rr_mode='slow'), dict(kind='channel', init='c', tag='B', down=2, up=2, pub='manual', credit='one')]
     M['stream c first, then slow handler rr c'] = [dict(kind='stream', init='c', tag='B', down=3, pub='manual', credit='one'), dict(kind='rr', init='c', tag='A', rr_mode='slow')]
     M['channel s first, then slow handler rr c'] = [dict(kind='channel', init='s', tag='B', down=2, up=2, pub='manual', credit='one'), dict(kind='rr', init='c', tag='A', rr_mode='slow')]
+    # other handler entry points suspended (fire-and-forget, metadata-push, stream and channel handlers)
+    M['rr late c first, then slow fnf c'] = [dict(kind='rr', init='c', tag='B', rr_mode='late'), dict(kind='fnf', init='c', tag='A', rr_mode='slow')]
+    M['stream s first, then slow push c'] = [dict(kind='stream', init='s', tag='B', down=2, pub='manual', credit='one'), dict(kind='push', init='c', tag='A', rr_mode='slow')]
+    M['rr late s first, then slow stream handler c'] = [dict(kind='rr', init='s', tag='B', rr_mode='late'), dict(kind='stream', init='c', tag='A', down=2, pub='manual', credit='one', rr_mode='slow')]
+    M['rr late c first, then slow channel handler s'] = [dict(kind='rr', init='c', tag='B', rr_mode='late'), dict(kind='channel', init='s', tag='A', down=1, up=1, pub='manual', credit='one', rr_mode='slow')]
     return M
 
 
